@@ -41,7 +41,7 @@ def run(tier, seed, replay=None):
     build = lib.Build().run()
     rep.proof = lib.compile_props(PID)
     rng = lib.rng_for(seed, PID)
-    n = 400 if tier == 'quick' else 12000
+    n = 400 if tier == 'quick' else 96000
     w = gen.WalText(rng)
     probes = []          # (kind, text, expectation or None)
     for _ in range(n):
